@@ -1226,6 +1226,8 @@ def from_gitlab_native(gitlab_scheme, string):
         if "".join([comparator, constraint_item]) in vrc.vers_by_native_comparators:
             comparator = "".join([comparator, constraint_item])
             comparator = vrc.vers_by_native_comparators[comparator]
+            if comparator is None:
+                raise ValueError(f"Unsupported comparator {constraint_item!r} in: {string!r}")
             continue
         if comparator:
             constraints.append(
